@@ -143,7 +143,7 @@ def model_input(case: str, out: str) -> str:
             toks.append(f"raise.{who}.{'e' if e[2] == 'exc' else 'b'}")
         elif k == "caught":
             toks.append(f"caught.{who}.{OUT.get(e[2], '?' + e[2])}")
-        elif k in ("tryok", "hang", "den", "dened", "dex", "dexed", "dprobe", "reentered", "refail", "yraise", "spawnerr"):
+        elif k in ("tryok", "hang", "den", "dened", "dex", "dexed", "dprobe", "reentered", "refail", "yraise", "spawnerr", "dexcall"):
             pass    # disposables themselves are C02/C08; here only their effect on the group (enterfail / cleanup)
         elif k == "spawn":
             toks.append(f"spawn.{who}.{e[2]}.{'s' if e[3] in ('spawn', 'factory') else 'c'}")
